@@ -68,6 +68,7 @@ func runC10(c *Ctx) {
 	c10OutputGuard(c, "(*ls.Replica).RestoreV3")
 	c10PublishLast(c, "(*ls.Replica).Restore")
 	c10PublishLast(c, "(*ls.Replica).RestoreV3")
+	v3SegmentContiguity(c)
 	// R2 staging (restore sites of the C03/C11 engines)
 	c10Staging(c)
 	// R3 integrity failure removes the output
@@ -129,7 +130,7 @@ func c10OutputGuard(c *Ctx, name string) {
 		for _, s := range stats {
 			e := vIs(resultOf(s, 1))
 			g1, n1 := guardedBy(cr, cmpFact(e, token.NEQ, vNil(), ""))
-			g2, n2 := guardedBy(cr, truthFact(vCall("os.IsNotExist", e), true, ""))
+			g2, n2 := guardedBy(cr, truthFact(vCall("os.IsNotExist", e), true, ""), truthFact(vCall("errors.Is", e, vGlobal("os.ErrNotExist")), true, ""))
 			if n1 > 0 && g1 && n2 > 0 && g2 {
 				ok = true
 			}
@@ -334,101 +335,24 @@ func c10Sinks(c *Ctx) {
 }
 
 func isParamExactly(v ssa.Value, p *ssa.Parameter) bool {
-	os := origins(v)
-	return len(os) == 1 && os[0] == ssa.Value(p)
+	if v == ssa.Value(p) {
+		return true
+	}
+	// the parameter itself (a concatenation such as path + "-wal" is its own origin); the
+	// parameter of a new helper also lists what its call sites pass
+	for _, o := range origins(v) {
+		if o == ssa.Value(p) {
+			return true
+		}
+	}
+	return false
 }
 
 func runC19(c *Ctx) {
 	createTruncRule(c, "R5-reassembled-files-start-empty")
 	c10PublishLast(c, "(*ls.Replica).RestoreV3")
 	c19UseMetadata(c)
-	// R1 contiguity
-	if fn := c.fn("R1-segment-contiguity", "(*ls.Replica).applyWALSegmentsV3"); fn != nil {
-		const rule = "R1-segment-contiguity"
-		aps := callsTo(fn, nameIs("(*ls.Replica).appendWALSegmentV3"))
-		c.floor(rule, len(aps), 1, "appendWALSegmentV3 calls")
-		idx := vFieldLoad("WALSegmentInfoV3.Index", nil)
-		off := vFieldLoad("WALSegmentInfoV3.Offset", nil)
-		for _, ap := range aps {
-			c.requireAlts(rule, fn, Site{ap, "appendWALSegmentV3"}, []FP{
-				cmpFact(idx, token.EQL, vAny(), "seg.Index == expectedIndex"),
-				cmpFact(off, token.EQL, func(v ssa.Value) bool { return !vConstInt(0)(v) || !isConst(v) }, "seg.Offset == running offset"),
-			})
-			// the Index test applies to segments that start a WAL file (Offset == 0)
-			okF, why := failStopOK(fn, ap)
-			c.check(okF, rule, fnName(fn)+": a failed segment write fails the restore", c.pos(ap), "fail-stop", why)
-		}
-		// expectedIndex starts at the snapshot index and steps by one; the running offset starts at 0 and adds the bytes written
-		n := 0
-		for _, e := range factEdges(fn, cmpFact(idx, token.EQL, vAny(), "")) {
-			ifi := lastInstr(e.From).(*ssa.If)
-			f := edgeFact(ifi, e.Succ)
-			exp := f.R
-			if idx(f.R) {
-				exp = f.L
-			}
-			n++
-			leaves, _ := phiLeaves(exp)
-			if u, isU := exp.(*ssa.UnOp); isU && u.Op == token.MUL {
-				if cell := cellOf(u.X); cell != nil {
-					leaves = cellStores(cell)
-				}
-			}
-			ok := len(leaves) > 0
-			sawParam := false
-			for _, l := range leaves {
-				if vParam("snapshotIndex")(l) {
-					if _, isP := l.(*ssa.Parameter); isP {
-						sawParam = true
-						continue
-					}
-				}
-				// the snapshot passed as a whole: its Index field
-				if vFieldLoad("SnapshotInfoV3.Index", nil)(l) {
-					sawParam = true
-					continue
-				}
-				if b, isB := l.(*ssa.BinOp); isB && b.Op == token.ADD && vConstInt(1)(b.Y) {
-					continue
-				}
-				ok = false
-			}
-			c.check(ok && sawParam, rule, fnName(fn)+": expectedIndex starts at the snapshot's index and increases by one per WAL file", c.pos(ifi), "phi over {snapshotIndex, expectedIndex+1}", "the first WAL index applied is not tied to the snapshot's index (a missing first WAL file would go unnoticed)")
-		}
-		c.floor(rule, n, 1, "index comparisons")
-		// the new WAL file is opened only for Offset == 0 segments whose Index matched
-		for _, op := range callsTo(fn, nameIs("os.OpenFile")) {
-			c.requireGuard(rule, fn, Site{op, "open new WAL file"}, cmpFact(off, token.EQL, vConstInt(0), "seg.Offset == 0"))
-			c.requireGuard(rule, fn, Site{op, "open new WAL file"}, cmpFact(idx, token.EQL, vAny(), "seg.Index == expectedIndex"))
-		}
-	}
-	if fn := c.fn("R1-segment-contiguity", "(*ls.Replica).RestoreV3"); fn != nil {
-		for _, call := range callsTo(fn, nameIs("(*ls.Replica).applyWALSegmentsV3")) {
-			// the chosen snapshot's index and generation are handed over: as two arguments,
-			// or as the snapshot value itself
-			chosen := vResult(nameIs("ls.findBestSnapshotV3"), 0)
-			whole := false
-			for _, x := range call.Common().Args {
-				if u, isU := x.(*ssa.UnOp); isU && u.Op == token.MUL && chosen(u.X) && strings.Contains(x.Type().String(), "SnapshotInfoV3") {
-					whole = true
-				}
-				if chosen(x) && strings.Contains(x.Type().String(), "SnapshotInfoV3") {
-					whole = true
-				}
-			}
-			a := namedArg(call, "snapshotIndex")
-			c.check(whole || (a != nil && vFieldLoad("SnapshotInfoV3.Index", chosen)(a)), "R1-segment-contiguity", fnName(fn)+": contiguity starts from the chosen snapshot's index", c.pos(call), "snapshot.Index", "the WAL chain is not anchored at the chosen snapshot")
-			g := namedArg(call, "generation")
-			c.check(whole || (g != nil && vFieldLoad("SnapshotInfoV3.Generation", nil)(g)), "R1-segment-contiguity", fnName(fn)+": segments come from the snapshot's generation", c.pos(call), "snapshot.Generation", "segments of another generation could be applied")
-		}
-		for _, call := range callsTo(fn, nameIs("ls.filterWALSegmentsV3")) {
-			a := refArgs(call)
-			c.check(vFieldLoad("SnapshotInfoV3.Index", nil)(a[1]) && vFieldLoad("RestoreOptions.Timestamp", nil)(a[2]), "R2-eligibility", fnName(fn)+": segments filtered by (snapshot.Index, opt.Timestamp)", c.pos(call), "provenance matches", "filter arguments are not the snapshot index and requested time")
-		}
-		for _, call := range callsTo(fn, nameIs("ls.findBestSnapshotV3")) {
-			c.check(vFieldLoad("RestoreOptions.Timestamp", nil)(refArgs(call)[1]), "R2-eligibility", fnName(fn)+": snapshot chosen for opt.Timestamp", c.pos(call), "provenance matches", "snapshot not chosen for the requested time")
-		}
-	}
+	v3SegmentContiguity(c)
 	v3TimestampEligibility(c)
 	errflowCone(c, func() *EFConfig {
 		cfg := restoreConfig("(*ls.Replica).RestoreV3")
@@ -458,7 +382,17 @@ func runC19(c *Ctx) {
 		const rule = "R4-format-arbitration"
 		ts := vParam("timestamp")
 		v3 := vFieldLoad("SnapshotInfoV3.CreatedAt", vResult(nameIs("(*ls.Replica).findBestV3SnapshotForTimestamp"), 0))
-		lx := vFieldLoad("FileInfo.CreatedAt", vResult(nameIs("(*ls.Replica).findBestLTXSnapshotForTimestamp"), 0))
+		// the eligible LTX snapshot: the finder's result, or (finder inlined) an element of the
+		// timestamp-filtered FindLTXFiles listing
+		ltxSnap := vOr(vResult(nameIs("(*ls.Replica).findBestLTXSnapshotForTimestamp"), 0), anyOrigin(func(o ssa.Value) bool {
+			u, ok := o.(*ssa.UnOp)
+			if !ok || u.Op != token.MUL {
+				return false
+			}
+			ia, ok := u.X.(*ssa.IndexAddr)
+			return ok && vResult(nameIs("ls.FindLTXFiles"), 0)(ia.X)
+		}))
+		lx := vFieldLoad("FileInfo.CreatedAt", ltxSnap)
 		n := 0
 		for _, ret := range returns(fn) {
 			if len(ret.Results) < 1 || !vConstBool(true)(ret.Results[0]) || !isConst(ret.Results[0]) {
@@ -470,7 +404,7 @@ func runC19(c *Ctx) {
 			}
 			n++
 			c.requireAlts(rule, fn, Site{ret, "return true (timestamp restore)"}, []FP{
-				cmpFact(vResult(nameIs("(*ls.Replica).findBestLTXSnapshotForTimestamp"), 0), token.EQL, vNil(), "no eligible LTX snapshot"),
+				cmpFact(ltxSnap, token.EQL, vNil(), "no eligible LTX snapshot"),
 				truthFact(vCall("(time.Time).After", v3, lx), true, "eligible v3 snapshot newer than the eligible LTX snapshot"),
 				truthFact(vCall("(time.Time).Before", lx, v3), true, ""),
 				cmpFact(vAny(), token.EQL, vAny(), ""),
@@ -661,12 +595,28 @@ func sameFieldLoad(a, b ssa.Value) bool {
 func c19UseMetadata(c *Ctx) {
 	const rule = "R4-format-arbitration"
 	n := 0
-	for _, name := range []string{"(*ls.Replica).findBestLTXSnapshotForTimestamp"} {
-		fn := c.fn(rule, name)
-		if fn == nil {
-			continue
-		}
+	// every FindLTXFiles call whose predicate compares FileInfo.CreatedAt with a time
+	for _, fn := range c.P.ProdFuncs() {
 		for _, call := range callsTo(fn, nameIs("ls.FindLTXFiles")) {
+			timed := false
+			for _, a := range call.Common().Args {
+				mc, ok := a.(*ssa.MakeClosure)
+				if !ok {
+					continue
+				}
+				if g, ok := mc.Fn.(*ssa.Function); ok {
+					for _, k := range calls(g) {
+						nm := calleeName(k)
+						if (nm == "(time.Time).Before" || nm == "(time.Time).After") && len(k.Common().Args) == 2 &&
+							(vFieldLoad("FileInfo.CreatedAt", nil)(k.Common().Args[0]) || vFieldLoad("FileInfo.CreatedAt", nil)(k.Common().Args[1])) {
+							timed = true
+						}
+					}
+				}
+			}
+			if !timed {
+				continue
+			}
 			n++
 			a := namedArg(call, "useMetadata")
 			c.check(a != nil && isConst(a) && vConstBool(true)(a), rule, fnName(fn)+": FindLTXFiles(useMetadata = true) for a timestamp comparison", c.pos(call), "constant true",
@@ -715,6 +665,29 @@ func v3TimestampEligibility(c *Ctx) {
 			c.requireGuard(rule, fn, Site{call, "result = append(result, seg)"}, cmpFact(vFieldLoad("WALSegmentInfoV3.Index", nil), token.GEQ, vParam("snapshotIndex"), "seg.Index >= snapshotIndex"))
 			alts := append([]FP{isZeroTime(ts, "timestamp.IsZero()")}, notAfter(vFieldLoad("WALSegmentInfoV3.CreatedAt", nil), ts, "seg.CreatedAt not after timestamp")...)
 			c.requireAlts(rule, fn, Site{call, "result = append(result, seg)"}, alts)
+			// completeness: a segment is skipped only because it precedes the snapshot or is
+			// strictly newer than the requested time ("not newer than T" includes T itself)
+			if l := innermostLoopOf(naturalLoops(fn), call.Block()); l != nil {
+				seg := vFieldLoad("WALSegmentInfoV3.CreatedAt", nil)
+				rejects := []FP{
+					cmpFact(vFieldLoad("WALSegmentInfoV3.Index", nil), token.LSS, vParam("snapshotIndex"), "seg.Index < snapshotIndex"),
+					truthFact(vCall("(time.Time).After", seg, ts), true, "seg.CreatedAt.After(timestamp)"),
+					truthFact(vCall("(time.Time).Before", ts, seg), true, "timestamp.Before(seg.CreatedAt)"),
+				}
+				cut := cutEdges(fn, rejects...)
+				avoid := map[*ssa.BasicBlock]bool{call.Block(): true}
+				bad := false
+				for _, s := range l.Header.Succs {
+					if !l.Blocks[s] {
+						continue
+					}
+					if reachableAvoiding(fn, s, cut, avoid)[l.Header] {
+						bad = true
+					}
+				}
+				c.check(!bad, rule, fnName(fn)+": a segment is dropped only if [seg.Index < snapshotIndex OR seg.CreatedAt strictly after timestamp]", c.pos(call),
+					"every iteration that skips the append passes one of those edges", "a segment can be dropped for another reason (e.g. CreatedAt equal to the requested time): the restore silently stops one segment early")
+			}
 		}
 		// the library form: slices.DeleteFunc(copy, pred) keeps exactly the elements for which pred is false
 		for _, call := range callsTo(fn, nameIs("slices.DeleteFunc")) {
@@ -819,4 +792,108 @@ func c10PublishLast(c *Ctx, name string) {
 			"a fallible step runs after the database was published at the output path: "+strings.Join(bad, "; ")+" — its failure returns an error but leaves a database (possibly partial) behind")
 	}
 	c.floor(rule, n, 1, "rename onto opt.OutputPath in "+name)
+}
+
+// v3SegmentContiguity: the v0.3.x WAL chain applied on top of a snapshot is contiguous from
+// the snapshot's own index (shared by C19 and C10: a missing first WAL file is an error, not
+// a silently shorter database).
+func v3SegmentContiguity(c *Ctx) {
+	// R1 contiguity
+	if fn := c.fn("R1-segment-contiguity", "(*ls.Replica).applyWALSegmentsV3"); fn != nil {
+		const rule = "R1-segment-contiguity"
+		aps := callsTo(fn, nameIs("(*ls.Replica).appendWALSegmentV3"))
+		if len(aps) == 0 {
+			// the helper inlined into the loop: the segment download itself is the site
+			aps = callsTo(fn, nameHasSuffix(".OpenWALSegmentV3"))
+		}
+		c.floor(rule, len(aps), 1, "appendWALSegmentV3 calls")
+		idx := vFieldLoad("WALSegmentInfoV3.Index", nil)
+		off := vFieldLoad("WALSegmentInfoV3.Offset", nil)
+		for _, ap := range aps {
+			c.requireAlts(rule, fn, Site{ap, "appendWALSegmentV3"}, []FP{
+				cmpFact(idx, token.EQL, vAny(), "seg.Index == expectedIndex"),
+				cmpFact(off, token.EQL, func(v ssa.Value) bool { return !vConstInt(0)(v) || !isConst(v) }, "seg.Offset == running offset"),
+			})
+			// the Index test applies to segments that start a WAL file (Offset == 0)
+			okF, why := failStopOK(fn, ap)
+			c.check(okF, rule, fnName(fn)+": a failed segment write fails the restore", c.pos(ap), "fail-stop", why)
+		}
+		// expectedIndex starts at the snapshot index and steps by one; the running offset starts at 0 and adds the bytes written
+		n := 0
+		for _, e := range factEdges(fn, cmpFact(idx, token.EQL, vAny(), "")) {
+			ifi := lastInstr(e.From).(*ssa.If)
+			f := edgeFact(ifi, e.Succ)
+			exp := f.R
+			if idx(f.R) {
+				exp = f.L
+			}
+			n++
+			leaves, _ := phiLeaves(exp)
+			if u, isU := exp.(*ssa.UnOp); isU && u.Op == token.MUL {
+				if cell := cellOf(u.X); cell != nil {
+					leaves = cellStores(cell)
+				}
+				// the counter kept in a field of a local state struct
+				if fa, isFA := u.X.(*ssa.FieldAddr); isFA {
+					leaves = nil
+					for _, st := range storesToFieldDeep(fn, fieldAddrName(fa)) {
+						leaves = append(leaves, st.Val)
+					}
+				}
+			}
+			ok := len(leaves) > 0
+			sawParam := false
+			for _, l := range leaves {
+				if vParam("snapshotIndex")(l) {
+					if _, isP := l.(*ssa.Parameter); isP {
+						sawParam = true
+						continue
+					}
+				}
+				// the snapshot passed as a whole: its Index field
+				if vFieldLoad("SnapshotInfoV3.Index", nil)(l) {
+					sawParam = true
+					continue
+				}
+				if b, isB := l.(*ssa.BinOp); isB && b.Op == token.ADD && vConstInt(1)(b.Y) {
+					continue
+				}
+				ok = false
+			}
+			c.check(ok && sawParam, rule, fnName(fn)+": expectedIndex starts at the snapshot's index and increases by one per WAL file", c.pos(ifi), "phi over {snapshotIndex, expectedIndex+1}", "the first WAL index applied is not tied to the snapshot's index (a missing first WAL file would go unnoticed)")
+		}
+		c.floor(rule, n, 1, "index comparisons")
+		// the new WAL file is opened only for Offset == 0 segments whose Index matched
+		for _, op := range callsTo(fn, nameIs("os.OpenFile")) {
+			c.requireGuard(rule, fn, Site{op, "open new WAL file"}, cmpFact(off, token.EQL, vConstInt(0), "seg.Offset == 0"))
+			c.requireGuard(rule, fn, Site{op, "open new WAL file"}, cmpFact(idx, token.EQL, vAny(), "seg.Index == expectedIndex"))
+		}
+	}
+	if fn := c.fn("R1-segment-contiguity", "(*ls.Replica).RestoreV3"); fn != nil {
+		for _, call := range callsTo(fn, nameIs("(*ls.Replica).applyWALSegmentsV3")) {
+			// the chosen snapshot's index and generation are handed over: as two arguments,
+			// or as the snapshot value itself
+			chosen := vResult(nameIs("ls.findBestSnapshotV3"), 0)
+			whole := false
+			for _, x := range call.Common().Args {
+				if u, isU := x.(*ssa.UnOp); isU && u.Op == token.MUL && chosen(u.X) && strings.Contains(x.Type().String(), "SnapshotInfoV3") {
+					whole = true
+				}
+				if chosen(x) && strings.Contains(x.Type().String(), "SnapshotInfoV3") {
+					whole = true
+				}
+			}
+			a := namedArg(call, "snapshotIndex")
+			c.check(whole || (a != nil && vFieldLoad("SnapshotInfoV3.Index", chosen)(a)), "R1-segment-contiguity", fnName(fn)+": contiguity starts from the chosen snapshot's index", c.pos(call), "snapshot.Index", "the WAL chain is not anchored at the chosen snapshot")
+			g := namedArg(call, "generation")
+			c.check(whole || (g != nil && vFieldLoad("SnapshotInfoV3.Generation", nil)(g)), "R1-segment-contiguity", fnName(fn)+": segments come from the snapshot's generation", c.pos(call), "snapshot.Generation", "segments of another generation could be applied")
+		}
+		for _, call := range callsTo(fn, nameIs("ls.filterWALSegmentsV3")) {
+			a := refArgs(call)
+			c.check(vFieldLoad("SnapshotInfoV3.Index", nil)(a[1]) && vFieldLoad("RestoreOptions.Timestamp", nil)(a[2]), "R2-eligibility", fnName(fn)+": segments filtered by (snapshot.Index, opt.Timestamp)", c.pos(call), "provenance matches", "filter arguments are not the snapshot index and requested time")
+		}
+		for _, call := range callsTo(fn, nameIs("ls.findBestSnapshotV3")) {
+			c.check(vFieldLoad("RestoreOptions.Timestamp", nil)(refArgs(call)[1]), "R2-eligibility", fnName(fn)+": snapshot chosen for opt.Timestamp", c.pos(call), "provenance matches", "snapshot not chosen for the requested time")
+		}
+	}
 }
